@@ -52,6 +52,27 @@ def run(ck):
         if k % 4 == 0:
             ms.modules = [(n, o, d[:5]) for n, o, d in ms.modules]
         inputs.append(ms)
+    # notations resolved by the linker in passes over the definitions (COMPONENTS OF chains, value references in constraints,
+    # alias chains): three names in each of their six relative orders, every permutation of the assignments
+    for oi, (nb, nm, no) in enumerate(itertools.permutations(['Aa', 'Mm', 'Zz'])):
+        ms = MG.ModuleSet()
+        mname = 'Link%d' % oi
+        defs = [MG.Def(mname, nb + 'Base', 'seq', '%sBase ::= SEQUENCE { id INTEGER }' % nb),
+                MG.Def(mname, nm + 'Middle', 'components-of', '%sMiddle ::= SEQUENCE { COMPONENTS OF %sBase, label BOOLEAN }' % (nm, nb), deps=[nb + 'Base']),
+                MG.Def(mname, no + 'Outer', 'components-of', '%sOuter ::= SEQUENCE { COMPONENTS OF %sMiddle, flag NULL }' % (no, nm), deps=[nm + 'Middle']),
+                MG.Def(mname, 'v%s' % nb.lower(), 'value', 'v%s INTEGER ::= v%s' % (nb.lower(), nm.lower()), is_value=True),
+                MG.Def(mname, 'v%s' % nm.lower(), 'value', 'v%s INTEGER ::= 7' % nm.lower(), is_value=True)]
+        ms.modules = [(mname, {'tagging': 'AUTOMATIC TAGS', 'ext': False}, defs)]
+        inputs.append(ms)
+        ms2 = MG.ModuleSet()
+        mname = 'Lnk2%d' % oi
+        defs = [MG.Def(mname, nb + 'Lim', 'int', '%sLim ::= INTEGER (0..v%s)' % (nb, no.lower())),
+                MG.Def(mname, 'v%s' % no.lower(), 'value', 'v%s INTEGER ::= v%s' % (no.lower(), nm.lower()), is_value=True),
+                MG.Def(mname, 'v%s' % nm.lower(), 'value', 'v%s INTEGER ::= 9' % nm.lower(), is_value=True),
+                MG.Def(mname, nm + 'Al', 'alias', '%sAl ::= %sLim (1..5)' % (nm, nb)),
+                MG.Def(mname, no + 'Al', 'alias', '%sAl ::= %sAl' % (no, nm))]
+        ms2.modules = [(mname, {'tagging': '', 'ext': False}, defs)]
+        inputs.append(ms2)
     jobs, meta = [], []
     for i, ms in enumerate(inputs):
         backend = 'ts' if i % 3 == 2 else 'rasn'
@@ -94,6 +115,28 @@ def run(ck):
             ck.violation('impl-violation', {'sources': j['sources'], 'backend': j['backend'], 'reference_sources': jobs[[m for m in range(len(meta)) if meta[m] == (i, 'reference')][0]]['sources']},
                          order=desc, why='the same set of definitions in another order (%s) gives other bindings or warnings' % desc,
                          first_difference=first_diff(base.get('generated') or base.get('err') or '', r.get('generated') or r.get('err') or ''))
+    # history with the same names: a twin of every input (all numerals shifted by one, names kept) is compiled first, then the
+    # input itself -- anything remembered under a name from an earlier compilation shows
+    import re as _re
+    tw_jobs = []
+    for i, j in [(i, jobs[m]) for m, (i, d) in enumerate(meta) if d == 'reference']:
+        twin = [_re.sub(r'(?<![A-Za-z0-9-])(-?)(\d+)(?![A-Za-z0-9-])', lambda m: str(int(m.group(1) + m.group(2)) + 1), t) for t in j['sources']]
+        tw_jobs.append({'sources': twin, 'backend': j['backend']})
+        tw_jobs.append(j)
+    tw = run_harness([{'op': 'compile_many', 'jobs': tw_jobs, 'threads': 1, 'warmup': []}], per_case_timeout=900)[0]
+    if 'results' in tw:
+        refs_i = [i for (i, d) in meta if d == 'reference']
+        for n, i in enumerate(refs_i):
+            r = tw['results'][2 * n + 1]
+            base = ref.get(i)
+            ck.count('after-twin')
+            if base is None or r is None:
+                continue
+            if base.get('generated') != r.get('generated') or base.get('warnings') != r.get('warnings') or base.get('ok') != r.get('ok'):
+                ck.violation('impl-violation', {'sources': tw_jobs[2 * n + 1]['sources'], 'backend': tw_jobs[2 * n + 1]['backend'],
+                                                'preceded_by': tw_jobs[2 * n]['sources']},
+                             why='a compilation preceded in the same process by one of a module with the same names but other numbers gives other bindings',
+                             first_difference=first_diff(base.get('generated') or '', r.get('generated') or ''))
     # concurrency and history: the reference inputs again, 2..16 at a time, in a fresh process with another warm-up
     refs = [(i, jobs[m]) for m, (i, d) in enumerate(meta) if d == 'reference']
     for threads in ([2, 16] if quick else [2, 4, 8, 16]):
